@@ -15,15 +15,24 @@ PROP = dict(
     rule='one case = one deterministic schedule run through the REAL PlayGame/ObserveGame (in-package driver, scripted Client, gated '
          'Bot): events = {next server line delivered (opponent move, replayed move of either colour, Time, RequestUndo, Undo, Over, '
          'Abandoned., 16 kinds of chat/unknown lines), connection closed, release of the blocked thinker (logged with the position it '
-         'was started on and whether its context was cancelled; k-th legal or an illegal answer), real 500 ms grace expiry}; 3x3 and 4x4, '
+         'was started on and whether its context was cancelled; k-th legal or an illegal answer), real 500 ms grace expiry, and '
+         '"the thinker\'s answer lands WHILE the loop is handling a line": released from inside the loop\'s log call of the P/M branch '
+         'or from inside SendCommand when the bot transmits its undo acceptance, i.e. after the line was taken and before the branch\'s '
+         'moveCancel(), the driver waiting there until the answer sits in the buffered channel}; 3x3 and 4x4, '
          'white / black / observer, AcceptUndo on/off, AIs answering instantly / late / only after cancellation / with illegal moves. '
          'Directed: resume replay of every prefix (0..5 plies) x every release point of the ply-0 thinker, undo at every ply 1..5 x '
-         '3 release points, ends with blocked thinkers, whole games; + random schedules; thorough adds every ordering of '
-         '{move line, thinker release, grace, Time, RequestUndo, Undo} of length 5 (play) and 4 (resume, observer). A few hostile '
+         '3 release points, answer landing during the accepted RequestUndo / during a replayed move line at every ply with exactly '
+         'one live thinker blocked, during every line of every resume prefix, ends with blocked thinkers, whole games; + random '
+         'schedules; thorough adds every ordering of {move line, move line with answer landing, thinker release, grace, Time, '
+         'RequestUndo, RequestUndo with answer landing} of length 6 (play) and 5 (resume, observer, after two plies). A few hostile '
          'schedules (illegal / malformed lines) are compared with the model only. Schedules whose trace fails the oracle or the model '
          'are re-run 3 times before they count. non-trivial = the bot sent or recorded something; distinct = distinct traces',
     assumptions=['the server keeps its contract (env_ok): moves legal in its own history, Undo only after the bot accepted and only '
                  'with a move to take back, well-formed lines; hostile schedules are outside the oracle',
+                 'the server performs an accepted undo at once (a move the bot transmits before the Undo line reaches it is judged at '
+                 'the position after the undo); the Undo line follows the acceptance before any other move / undo-request line and '
+                 'before the grace timer of an earlier move line acts (expiry, or Time line while it is pending) - with the timer acting '
+                 'in that window the repaired loop restarts and may transmit a move for the position before the undo (see report)',
                  'authoritative history is taken as communicated (lines delivered so far + accepted sends)',
                  'liveness (the bot eventually moves) and the grace heuristic itself are not claimed',
                  'a thinker whose context is still live when it returns belongs to the current invocation of handleMove (all earlier '
